@@ -1,7 +1,8 @@
 -------------------------- MODULE Trace_EntityCache --------------------------
 (* Trace validation for C16: the call log recorded by harness/cmd/cachex from  *)
 (* the real engine (GetMany / SetMany on the recording cache, the subgraph      *)
-(* exchange of every fetch, clock ticks, evictions, end of request) is replayed *)
+(* exchange of every fetch, clock ticks, evictions, end of request; the         *)
+(* requests of a history run one after the other or concurrently) is replayed   *)
 (* against the entity-cache specification.  The store of the specification is   *)
 (* rebuilt from the logged SetMany calls with EntityCacheOps!Put / Drop, every   *)
 (* event is judged with the operators of CacheControl / EntityCacheOps and the   *)
@@ -52,14 +53,15 @@ T_Get ==
   /\ IsEvent("get")
   /\ LET keys == SeqRange(Ev.keys)
          found == {Ev.found[i].k : i \in 1..Len(Ev.found)}
-         full == Ev.res = "ok" /\ FullHit(found, keys) /\ Len(Ev.found) = Len(Ev.keys)
+         \* an item that comes back with an empty Value is a miss
+         full == Ev.res = "ok" /\ FullHit(found, keys) /\ Len(Ev.found) = Len(Ev.keys) /\ \A i \in 1..Len(Ev.found) : Ev.found[i].e = 0
      IN /\ tx' = [t \in DOMAIN tx \cup {Ev.t} |->
                     IF t = Ev.t THEN [keys |-> Ev.keys, full |-> full, loaded |-> FALSE, status |-> 0, clean |-> FALSE,
-                                      dirs |-> <<>>, bad |-> FALSE, ents |-> <<>>]
+                                      dirs |-> <<>>, bad |-> FALSE, ents |-> <<>>, r |-> Ev.r]
                     ELSE tx[t]]
         /\ flags' = Flag("ServedOnlyStoredLive",
                          \E i \in 1..Len(Ev.found) : \/ Ev.found[i].k \notin Live(store, clock, keys)
-                                                      \/ store[Ev.found[i].k].val # Ev.found[i].vh)
+                                                      \/ (Ev.found[i].e = 0 /\ store[Ev.found[i].k].val # Ev.found[i].vh))
         /\ nhits' = IF full THEN nhits + 1 ELSE nhits
   /\ UNCHANGED <<store, clock, dttl, nstored>>
 
@@ -67,7 +69,7 @@ T_Load ==
   /\ IsEvent("load")
   /\ LET base == IF Ev.t \in DOMAIN tx THEN tx[Ev.t]
                  ELSE [keys |-> <<>>, full |-> FALSE, loaded |-> FALSE, status |-> 0, clean |-> FALSE,
-                       dirs |-> <<>>, bad |-> FALSE, ents |-> <<>>]
+                       dirs |-> <<>>, bad |-> FALSE, ents |-> <<>>, r |-> Ev.r]
      IN tx' = [t \in DOMAIN tx \cup {Ev.t} |->
                  IF t = Ev.t THEN [base EXCEPT !.loaded = TRUE, !.status = Ev.status, !.clean = (Ev.clean = 1 /\ Ev.dead = 0),
                                                !.dirs = Ev.dirs, !.bad = (Ev.bad = 1), !.ents = Ev.ents]
@@ -85,7 +87,7 @@ T_Set ==
   /\ LET its == Ev.items
          known == Ev.t \in DOMAIN tx
          f == IF known THEN tx[Ev.t] ELSE [keys |-> <<>>, full |-> FALSE, loaded |-> FALSE, status |-> 0, clean |-> FALSE,
-                                           dirs |-> <<>>, bad |-> FALSE, ents |-> <<>>]
+                                           dirs |-> <<>>, bad |-> FALSE, ents |-> <<>>, r |-> Ev.r]
          aligned(it) == \E i \in 1..Len(f.keys) : /\ f.keys[i] = it.k /\ i <= Len(f.ents)
                                                   /\ f.ents[i].o = 1 /\ f.ents[i].vh = it.vh
          sound(it) == \A i \in 1..Len(f.keys) : (f.keys[i] = it.k /\ i <= Len(f.ents) /\ f.ents[i].tv # "?") => f.ents[i].tv = it.vh
@@ -108,7 +110,8 @@ T_Set ==
 T_End ==
   /\ IsEvent("end")
   /\ flags' = Flag("CacheTransparent", Ev.same # 1)
-              \cup Flag("PartialNeverServed", \E t \in DOMAIN tx : tx[t].keys # <<>> /\ ~tx[t].full /\ ~tx[t].loaded)
+              \* (requests of a history may run concurrently: only the fetches of the request that ended are judged)
+              \cup Flag("PartialNeverServed", \E t \in DOMAIN tx : tx[t].r = Ev.r /\ tx[t].keys # <<>> /\ ~tx[t].full /\ ~tx[t].loaded)
   /\ UNCHANGED <<store, clock, dttl, tx, nstored, nhits>>
 
 TraceNext == T_Reset \/ T_Tick \/ T_Req \/ T_Evict \/ T_Get \/ T_Load \/ T_Set \/ T_End
